@@ -629,11 +629,11 @@ def api_walks(ncases, length):
                 elif r < 0.30:
                     ops.append(dict(op="BIat", b=o, enable=rnd.choice([0, 1, 1, 2, -1, 256])))
                 elif r < 0.35:
-                    ops.append(dict(op="BOffset", b=o, claim=rnd.choice(["exp", "nbf", "iat"]), secs=W(rnd.choice([-5, 0, 1, 30, 3600]))))
+                    ops.append(dict(op="BOffset", b=o, claim=rnd.choice(["exp", "nbf", "iat"]), secs=W(rnd.choice([-5, 0, 1, 30, 3600, 3600, 2**31, 2**32 + 5, 3155760000]))))
                 elif r < 0.41:
-                    ops.append(dict(op="CLeeway", c=o, claim=rnd.choice(["exp", "nbf", "iss"]), secs=W(rnd.choice([-1, 0, 5, 100]))))
+                    ops.append(dict(op="CLeeway", c=o, claim=rnd.choice(["exp", "nbf", "iss"]), secs=W(rnd.choice([-1, 0, 5, 100, 100, 2**31, 2**40]))))
                 elif r < 0.46:
-                    ops.append(dict(op="CClaimSet", c=o, claim=rnd.choice(["iss", "sub", "aud", "exp"]), val=rnd.choice(["x", "me", "~"])))
+                    ops.append(dict(op="CClaimSet", c=o, claim=rnd.choice(["iss", "sub", "aud", "exp"]), val=rnd.choice(["x", "me", "me", "~", "#hex:fffe", "#hex:6dc3a9"])))
                 elif r < 0.49:
                     ops.append(dict(op="CClaimDel", c=o, claim=rnd.choice(["iss", "sub", "aud"])))
                 elif r < 0.56:
@@ -673,13 +673,16 @@ def api_walks(ncases, length):
                         tok = dict(src="slot", slot=rnd.randrange(4))
                     else:
                         ki = rnd.choice([0, 1, 2, 4, 6])
-                        a = rnd.choice([MATCH[ki], MATCH[ki], "none", rnd.choice(ALGS)])
+                        a = rnd.choice([MATCH[ki], MATCH[ki], MATCH[ki], "none", rnd.choice(ALGS),
+                                        rnd.choice([MATCH[ki][:2], MATCH[ki] + "x", MATCH[ki] + "#0x", "none#0" + MATCH[ki], "", "None"])])
                         m = []
                         if rnd.random() < 0.5:
-                            m.append(mem("exp", "int", "", W(now + rnd.choice([-10, -1, 0, 1, 10]))))
+                            m.append(mem("exp", "int", "", W(now + rnd.choice([-10, -1, 0, 1, 10, 2**31 + 100, -2**31 - 100, 2**40]))))
+                        if rnd.random() < 0.2:
+                            m.append(mem("nbf", "int", "", W(now + rnd.choice([-10, 0, 1, 10, 2**31 + 100, -2**32 + 100]))))
                         if rnd.random() < 0.3:
                             m.append(mem("iss", "str", rnd.choice(["x", "me"])))
-                        tok = forge(a, pay_m=m, sigcls=rnd.choice(["valid", "valid", "flipbit", "empty", "garbage"]), sigkey=KEYS[ki], sigalg=a)
+                        tok = forge(a, pay_m=m, sigcls=rnd.choice(["valid", "valid", "flipbit", "empty", "garbage"]), sigkey=KEYS[ki], sigalg=(a if a in ALGS else MATCH[ki]))
                         if tok["sig"]["cls"] == "empty" or a == "none":
                             tok["sig"] = dict(cls="empty", alg="none", key=octk(32), over="self")
                     ops.append(dict(op="Verify", c=o, tok=tok, twin=1, nocb=1))
